@@ -303,12 +303,30 @@ def expectation(run):
     return tr, x
 
 
+def calls_term(calls):
+    """Host entries (starlark.Call after initialisation) as a Coq list of (name, argument values)."""
+    out = []
+    for cl in calls or []:
+        args = []
+        for a in cl["args"]:
+            if a["t"] == "int":
+                args.append("(VInt (%s)%%Z)" % int(a["v"]))
+            elif a["t"] == "str":
+                args.append("(VStr %s)" % cstr(a["v"]))
+            elif a["t"] == "bool":
+                args.append("(VBool %s)" % ("true" if a["v"] == "true" else "false"))
+            else:
+                args.append("VNone")
+        out.append("(%s, %s)" % (cstr(cl["fn"]), clist(args)))
+    return clist(out)
+
+
 def build_case(c):
     """-> dict with the Coq definitions for one harness object, or None with a reason."""
     cv = Conv()
     prog_t = cv.program(c["ast"], c["opts"])
     tr, x = expectation(c["run"])
-    d = {"prog": prog_t, "trace": tr, "expect": x, "steps": c["run"]["steps"]}
+    d = {"prog": prog_t, "trace": tr, "expect": x, "steps": c["run"]["steps"], "calls": calls_term(c.get("calls"))}
     rp = c.get("prog")
     if rp:
         pos2fid = {tuple(v): k for k, v in cv.funpos.items()}
@@ -332,11 +350,12 @@ def coq_eval(ctx, name, cases, want, timeout=1500):
     for i, d in enumerate(cases):
         text += "Definition p%d : program := %s.\n" % (i, d["prog"])
         text += "Definition t%d : list event := %s.\nDefinition x%d : expect := %s.\n" % (i, d["trace"], i, d["expect"])
+        text += "Definition hc%d : list hcall := %s.\n" % (i, d.get("calls", "[]"))
         row = []
         if "ref" in want:
-            row.append("ref_check p%d t%d x%d" % (i, i, i))
+            row.append("ref_check_calls p%d hc%d t%d x%d" % (i, i, i, i))
         if "compiled" in want:
-            row.append("(if in_compile_scope p%d then compiled_check p%d t%d x%d else \"skip\")" % (i, i, i, i))
+            row.append("(if in_compile_scope p%d then compiled_check_calls p%d hc%d t%d x%d else \"skip\")" % (i, i, i, i, i))
         if "top" in d and ("code" in want or "vm" in want):
             text += "Definition top%d : realfun := %s.\nDefinition funs%d : list realfun := %s.\n" % (i, d["top"], i, d["funs"])
             text += "Definition g%d : list string := %s.\n" % (i, d["globals"])
@@ -345,7 +364,7 @@ def coq_eval(ctx, name, cases, want, timeout=1500):
             if "vm" in want:
                 text += ("Definition cp%d : cprog := {| cp_top := rf_code top%d; cp_funs := map (fun r => (rf_id r, rf_code r)) funs%d; cp_recursion := %s |}.\n"
                          % (i, i, i, d["recursion"]))
-                row.append("vm_check cp%d (name_table %s) g%d t%d x%d %d" % (i, d["names"], i, i, i, d["steps"]))
+                row.append("vm_check_calls cp%d (name_table %s) g%d hc%d t%d x%d %d" % (i, d["names"], i, i, i, i, d["steps"]))
         text += "Definition r%d := Eval vm_compute in %s.\n" % (i, clist(row))
         names.append("r%d" % i)
     text += "Definition ALL := Eval vm_compute in %s.\nPrint ALL.\n" % clist(names)
@@ -426,7 +445,8 @@ def run(ctx):
         # re-run the program(s) recorded in a replay file instead of generating
         rp = json.load(open(ctx.replay_path))
         rr = rp.get("replay", rp)
-        line = json.dumps({"id": 1, "src": rr["src"], "opts": rr["opts"], "features": rr.get("features") or [], "fragment": False}) + "\n"
+        line = json.dumps({"id": 1, "src": rr["src"], "opts": rr["opts"], "features": rr.get("features") or [],
+                           "fragment": False, "calls": rr.get("calls") or []}) + "\n"
         corpus = ctx.jsonl([hx, "run"], timeout=300, input=line)
         cases = corpus
     else:
@@ -516,7 +536,7 @@ def run(ctx):
         else:
             key = "pipeline-vs-reference:" + r
         ctx.finding(key, "real pipeline and reference evaluator disagree (%s)" % r,
-                    {"src": c["src"], "opts": c["opts"], "real": c["run"], "features": c.get("features")})
+                    {"src": c["src"], "opts": c["opts"], "calls": c.get("calls") or [], "real": c["run"], "features": c.get("features")})
     refbad = set(id(c) for c, _ in bad["ref"])
     for w, name in (("code", "C01.Compile (bytecode of the real compiler vs model code generator)"),
                     ("vm", "C01.VM (model machine on the real bytecode vs real machine)"),
@@ -1199,6 +1219,40 @@ def fact(n):
 trace(fact(1))
 trace(fact(3))
 """),
+    ("host-calls-recursion-check-from-the-outermost-frame", ALLOFF, """
+def fact(n):
+    trace("fact", n)
+    if n <= 1:
+        return 1
+    return n * fact(n - 1)
+def ping(n):
+    trace("ping", n)
+    return pong(n - 1) if n > 0 else "done"
+def pong(n):
+    trace("pong", n)
+    return ping(n - 1) if n > 0 else "done"
+trace(fact(1), ping(1))
+""", [("fact", [("int", "1")]), ("ping", [("int", "1")]), ("fact", [("int", "3")])]),
+    ("host-calls-mutual-recursion-from-the-outermost-frame", ALLOFF, """
+def ping(n):
+    trace("ping", n)
+    return pong(n - 1) if n > 0 else "done"
+def pong(n):
+    trace("pong", n)
+    return ping(n - 1) if n > 0 else "done"
+""", [("pong", [("int", "0")]), ("ping", [("int", "4")])]),
+    ("host-calls-with-recursion-allowed-and-frozen-globals", {"set": False, "while": False, "recursion": True, "toplevel": False}, """
+log = [0]
+def fact(n):
+    return 1 if n <= 1 else n * fact(n - 1)
+def peek(k):
+    return (log, len(log), log[0] + k, [x for x in log])
+def poke(k):
+    trace("poke", k)
+    log.append(k)
+    return log
+trace(poke(1))
+""", [("fact", [("int", "6")]), ("peek", [("int", "2")]), ("poke", [("int", "3")])]),
     ("load-binds-file-locals", ALLOFF, """
 load("m.star", "a", bb="b")
 def f():
@@ -1403,6 +1457,9 @@ trace(f())
 
 def corpus_lines():
     out = []
-    for i, (name, opts, src) in enumerate(CORPUS):
-        out.append(json.dumps({"id": 100000 + i, "src": src.lstrip("\n"), "opts": opts, "features": ["corpus:" + name], "fragment": False}))
+    for i, entry in enumerate(CORPUS):
+        name, opts, src = entry[:3]
+        calls = [{"fn": f, "args": [{"t": t, "v": v} for t, v in args]} for f, args in (entry[3] if len(entry) > 3 else [])]
+        out.append(json.dumps({"id": 100000 + i, "src": src.lstrip("\n"), "opts": opts, "features": ["corpus:" + name],
+                               "fragment": False, "calls": calls}))
     return "\n".join(out) + "\n"
